@@ -377,11 +377,12 @@ Qed.
 
 Lemma wf_spec_next s i r : wf s -> wf (spec_next s i r).
 Proof.
-  intro W. destruct i as [f| |code].
+  intro W. destruct i as [f| |code|].
   - rewrite spec_next_frame. pose proof (same_pre_next s f) as Sm. pose proof (wf_same _ _ Sm W) as W1.
     destruct (conn_err r); [eapply wf_same; [apply same_die | exact W1]|].
     destruct (_ || _); [exact W1|]. apply wf_upd_st; [exact W1|].
     intro E. apply next_st_idle in E. rewrite (st_of_same _ _ _ Sm). exact E.
+  - cbn. destruct r; try exact W; (eapply wf_same; [apply same_die | exact W]).
   - cbn. destruct r; try exact W; (eapply wf_same; [apply same_die | exact W]).
   - cbn. destruct r; try exact W; (eapply wf_same; [apply same_die | exact W]).
 Qed.
@@ -444,7 +445,7 @@ Qed.
 
 Lemma spec_next_other_input s i r : (forall f, i <> Frame f) ->
   spec_next s i r = if conn_err r then die s else s.
-Proof. intro H. destruct i as [f| |code]; [exfalso; eapply H; reflexivity | |]; destruct r; reflexivity. Qed.
+Proof. intro H. destruct i as [f| |code|]; [exfalso; eapply H; reflexivity | | |]; destruct r; reflexivity. Qed.
 
 (* ---------- what a list of sends does to one stream ---------- *)
 
